@@ -40,6 +40,15 @@ CHECKS = {
         "concurrent queue event; relay/boolean lists <=4/5 handlers over 6 return values.",
    technique="explicit-state BFS of the implementation (replay + fork snapshots) + exhaustive enumeration",
    ref="3/C02"),
+ "C18": dict(cat="model_checking",
+   text="Explicit-state BFS (all configurations in one search, states of different configurations never merged) over "
+        "count/step events, enable/disable/reset/restart/add/subtract/jump and time choices for counters across the "
+        "configuration lattice, accruals and sequences; reference state machine from the statement compared after "
+        "every transition (value/enabled/completed and the exact hit/complete/timeout events).",
+   note="Trusted: virtual loop, reference model in props/c18.py. Bounds: depth 6 (quick, every 8th counter "
+        "configuration rotated by VERIF_SEED + all accrual/sequence configurations) / 7 (thorough, all 192+16).",
+   technique="explicit-state BFS of the implementation with a reference model (replay + fork snapshots)",
+   ref="3/C18"),
 }
 NOT_YET = "check not built yet in this revision (planned, see DESIGN.md section 7)"
 
